@@ -27,7 +27,7 @@ pub struct HistCase {
 
 impl HistCase {
     pub fn to_json(&self) -> Value {
-        json!({"plan": self.plan, "create_fault": self.create_fault, "seed": self.seed.to_string(), "hist": self.hist, "cfg": self.cfg.to_json(), "steps": genr::steps_to_json(&self.steps)})
+        json!({"plan": self.plan, "create_fault": self.create_fault, "seed": self.seed.to_string(), "hist": self.hist, "cfg": self.cfg.to_json(), "steps": genr::steps_to_json(&self.steps), "tags": self.tags})
     }
     pub fn from_json(v: &Value) -> Option<HistCase> {
         Some(HistCase {
@@ -35,7 +35,7 @@ impl HistCase {
             hist: v["hist"].as_u64()?,
             cfg: CfgSpec::from_json(&v["cfg"]),
             steps: genr::steps_from_json(&v["steps"])?,
-            tags: vec![],
+            tags: v["tags"].as_array().map(|a| a.iter().filter_map(|t| t.as_str().map(|x| x.to_string())).collect()).unwrap_or_default(),
             plan: v["plan"].as_str().unwrap_or("C01").to_string(),
             create_fault: v["create_fault"].as_u64().map(|x| x as u32),
         })
